@@ -22,6 +22,7 @@ use std::time::Instant;
 pub mod canary;
 pub mod netsim;
 pub mod pktgen;
+pub mod snapgen;
 pub mod refmodel;
 
 // ---------------------------------------------------------------- PRNG
